@@ -335,7 +335,7 @@ def ops_of(lines):
     return [l for l in lines if not l.startswith('>')]
 
 
-def write_evidence(ctx, spec, nviol):
+def write_evidence(ctx, spec, nviol, replay=False):
     os.makedirs(os.path.join(ctx.root, 'evidence'), exist_ok=True)
     obl = len(ctx.obligations)
     dis = sum(1 for _, ok in ctx.obligations if ok)
@@ -358,7 +358,10 @@ def write_evidence(ctx, spec, nviol):
         cov['samples'] = [n for n, _ in ctx.obligations[:5]]
     ev = dict(property_id=ctx.pid, tier=ctx.tier, seed=ctx.seed, level=spec.get('level', 'proof'), coverage=cov,
               assumptions=spec.get('assumptions', []), wall_s=round(time.time() - ctx.t0, 1), violations=nviol)
-    with open(os.path.join(ctx.root, 'evidence', ctx.pid + '.json'), 'w') as f:
+    # a --replay run leaves the property's evidence file alone
+    out = os.path.join(ctx.root, 'replays', ctx.pid + '.replay-evidence.json') if replay else os.path.join(ctx.root, 'evidence', ctx.pid + '.json')
+    os.makedirs(os.path.dirname(out), exist_ok=True)
+    with open(out, 'w') as f:
         json.dump(ev, f, indent=1)
 
 
@@ -474,7 +477,7 @@ def run_check(ctx, spec, replay):
         path = write_replay(ctx, 'unchecked-obligation', payload)
         print('VIOLATION property=%s replay=%s no-failing-input-found' % (pid, path), flush=True)
         rc = 1
-    write_evidence(ctx, spec, len(unlisted) + (1 if rc and not unlisted else 0))
+    write_evidence(ctx, spec, len(unlisted) + (1 if rc and not unlisted else 0), replay=bool(replay))
     log('== %s %s  obligations %d/%d  cases %d  %.1fs' % (
         pid, 'PASS' if rc == 0 else 'FAIL', sum(1 for _, ok in ctx.obligations if ok), len(ctx.obligations),
         ctx.cov['evaluations'], time.time() - ctx.t0))
